@@ -205,7 +205,7 @@ func allChecksRaw() []*Check {
 				{Name: "C12.long", Pkg: "gtree", Entry: "VerifC12Long", N: 0, FSModel: true, RealParse: true, RealScan: true, Expect: []string{"C12.long.returned", "C12.long.reported", "C12.long.fits.nil", "C12.long.fits.rendered", "C12.long.noleak"}},
 				{Name: "C12.rows.1x2.allbytes", Pkg: "gtree", Entry: "VerifC12Rows", N: 112, FSModel: true, RealParse: true, Expect: []string{"C12.returned", "C12.empty.nil"}},
 			},
-			Bounds: "byte level, real parser: documents of 1 row of 0..3 (quick) / 0..4 (thorough) arbitrary ASCII bytes, 2 rows of 0..1 (quick) / 0..2 (thorough) bytes, 1 row of 0..2 bytes over all 256 values (no \\n: the scanner never delivers one), through 8 sequential entry points (text both routes, JSON, YAML, dry-run, walk, mkdir and verify on the file-system model) and 2 massive-mode ones (text, walk; FIFO policy); plus, at tree level, the empty document and 1..3 blank rows on 11 entry points (2 of them massive). A panic or an exceeded step budget (3e6 SSA instructions) on any feasible path is a violation; this is also built into every harness of every other property. Long rows: a notation prefix (none, root bullet, indented bullets, heading, tab) + 30 or 100 units of one kind (ASCII, 2-byte, 3-byte characters, invalid bytes, a mixture, blanks) + one arbitrary byte, alone or after a root and child, on the same 10 entry points (byte length and rune count far apart, lengths beyond small fixed limits). Outside: longer rows / more rows with every byte arbitrary (the DESIGN's 3x5 bound is out of reach: 2 rows x 3 bytes did not finish in 30 min), over-long lines other than the boundary case (real bufio.Scanner: a root row of 65535 bytes plus newline is rendered completely, one byte more is an error, on 3 simple routes and massive text), other massive-mode documents (C10/C11).",
+			Bounds: "byte level, real parser: documents of 1 row of 0..3 (quick) / 0..4 (thorough) arbitrary ASCII bytes, 2 rows of 0..1 (quick) / 0..2 (thorough) bytes, 1 row of 0..2 bytes over all 256 values (no \\n: the scanner never delivers one), through 8 sequential entry points (text both routes, JSON, YAML, dry-run, walk, mkdir and verify on the file-system model, the last two also with the target directory being a regular file) and 2 massive-mode ones (text, walk; FIFO policy); plus, at tree level, the empty document and 1..3 blank rows on 11 entry points (2 of them massive). A panic or an exceeded step budget (3e6 SSA instructions) on any feasible path is a violation; this is also built into every harness of every other property. Long rows: a notation prefix (none, root bullet, indented bullets, heading, tab) + 30 or 100 units of one kind (ASCII, 2-byte, 3-byte characters, invalid bytes, a mixture, blanks) + one arbitrary byte, alone or after a root and child, on the same 10 entry points (byte length and rune count far apart, lengths beyond small fixed limits). Outside: longer rows / more rows with every byte arbitrary (the DESIGN's 3x5 bound is out of reach: 2 rows x 3 bytes did not finish in 30 min), over-long lines other than the boundary case (real bufio.Scanner: a root row of 65535 bytes plus newline is rendered completely, one byte more is an error, on 3 simple routes and massive text), other massive-mode documents (C10/C11).",
 			Assume: append([]string{fsModel, "real std strings/path/filepath/io/fs code executed on symbolic bytes (leaf intrinsics: bytealg.IndexByteString, CountString, MakeNoZero)"}, commonAssume...),
 		},
 		{
@@ -260,7 +260,7 @@ func allChecksRaw() []*Check {
 				gjf("C06.dup.n4", "VerifC06Dup", 4, "C06.dup.kind", "C06.dup.count", "C06.dup.nil", "C06.dup.inside", "C06.dup.end"),
 				gj("C06.bytes.e6n8", "VerifC06Bytes", 68, "C06.bytes.nil", "C06.bytes.file", "C06.bytes.dir", "C06.bytes.dir.made"),
 			},
-			Bounds: "forests of N rows with distinct root names / programs of N nodes (quick 3, thorough 4), names opaque single path elements, 0..2 opaque extensions (suffix tests decided by the solver, so whole-name and overlapping suffixes are included), target present / missing / holding one unrelated file or directory; one root pre-existing as file or directory; refusals: a node with an over-long name (ENAMETOOLONG on every operation touching it), the target being a regular file. Byte level (file rule on real bytes, no path contracts): root + one child of 5 (quick) / 8 (thorough) arbitrary ASCII name bytes, optionally a grandchild, one extension of 4 / 6 arbitrary bytes, both families. Outside: other OS refusals, symlinks, permissions, massive mode (C10).",
+			Bounds: "forests of N rows with distinct root names / programs of N nodes (quick 3, thorough 4), names opaque single path elements, 0..2 opaque extensions (suffix tests decided by the solver, so whole-name and overlapping suffixes are included), target present / missing / holding one unrelated file or directory; one root pre-existing as file, directory, symbolic link to a directory or symbolic link to nothing; refusals: a node with an over-long name (ENAMETOOLONG on every operation touching it), the target being a regular file, the target being a symbolic link to nothing. Byte level (file rule on real bytes, no path contracts): root + one child of 5 (quick) / 8 (thorough) arbitrary ASCII name bytes, optionally a grandchild, one extension of 4 / 6 arbitrary bytes, both families. Outside: other OS refusals, symbolic links elsewhere than at a root or at the target, permissions, massive mode (C10).",
 			Assume: append([]string{parseContract, pathContract, fsModel}, commonAssume...),
 		},
 		{
@@ -280,7 +280,7 @@ func allChecksRaw() []*Check {
 				gj("C07.LPath.3x3", "VerifLPath", 33, "LPath.join", "LPath.valid", "LPath.fjoin", "LPath.fjoin.trailing"),
 				gjf("C07.links.n4", "VerifC07Links", 4, "C07.links.inside/nolink", "C07.links.inside/link", "C07.links.inside/dangling", "C07.links.accept", "C07.links.end"),
 			},
-			Bounds: "byte level: trees of 1 node, 2 nodes (chain) and 3 nodes (chain, root with two children), every name an arbitrary ASCII byte string (no NUL/newline) of length 1..2/3 (quick) and 1..2 for 3 nodes, 1..4 for 2 nodes (thorough); entry points MkdirFromMarkdown, MkdirFromMarkdown+dry-run, MkdirFromRoot, MkdirFromRoot+dry-run, OutputFromMarkdown+dry-run (the CLI's route), MkdirFromMarkdown with the massive option (real pipeline under the FIFO policy) and with massive+dry-run, each with and without extension '.x'; real path.Join/Clean, filepath.Join, fs.ValidPath, strings code on symbolic bytes. os.Stat answers 'exists' for the target directory itself and 'does not exist' otherwise; os.MkdirAll/os.Create record their argument. L-path: Join of 2..3 single-element names is concatenation with '/'. Outside: non-ASCII names, symlinks.",
+			Bounds: "byte level: trees of 1 node, 2 nodes (chain) and 3 nodes (chain, root with two children), every name an arbitrary ASCII byte string (no NUL/newline) of length 1..2/3 (quick) and 1..2 for 3 nodes, 1..4 for 2 nodes (thorough); entry points MkdirFromMarkdown, MkdirFromMarkdown+dry-run, MkdirFromRoot, MkdirFromRoot+dry-run, OutputFromMarkdown+dry-run (the CLI's route), MkdirFromMarkdown with the massive option (real pipeline under the FIFO policy) and with massive+dry-run, each with and without extension '.x'; real path.Join/Clean, filepath.Join, fs.ValidPath, strings code on symbolic bytes. os.Stat answers 'exists' for the target directory itself and 'does not exist' otherwise; os.MkdirAll/os.Create record their argument. L-path: Join of 2..3 single-element names is concatenation with '/'. Tree level on the file-system model (C07.links): forests of 3 (quick) / 4 (thorough) rows with valid names and 0..1 opaque extension, at one root's path nothing / a symbolic link to a directory outside the target / a symbolic link to nothing, MkdirFromMarkdown and MkdirFromRoot with and without the massive option and MkdirProgrammably: nothing is made or changed through the link. Outside: non-ASCII names, symbolic links below a root or at the target itself.",
 			Assume: append([]string{parseContract, "os.Stat -> not exist; os.MkdirAll/Create record the path and succeed (byte-level recorder); lexical confinement only"}, commonAssume...),
 		},
 		{
@@ -308,7 +308,7 @@ func allChecksRaw() []*Check {
 			Thorough: []Job{
 				gjf("C09.n4", "VerifC09", 4, "C09.nil", "C09.pure", "C09.real.nil", "C09.report"),
 			},
-			Bounds: "forests of N rows (quick 3, thorough 4), names opaque single path elements, 0..2 opaque extensions; routes OutputFromMarkdown+dry-run, MkdirFromMarkdown+dry-run, MkdirFromRoot+dry-run (single root); report compared with plain tree text + counts of what the real MkdirFromMarkdown then creates in the same file-system model. 'dry run rejects iff the real run rejects because of names' is decided at byte level by C07 (same five routes, every name byte symbolic). Outside: massive mode (C10).",
+			Bounds: "forests of N rows (quick 3, thorough 4), names opaque single path elements, 0..2 opaque extensions; routes OutputFromMarkdown+dry-run, MkdirFromMarkdown+dry-run, MkdirFromRoot+dry-run (single root); an encode option in front of or behind WithDryRun (default branch strings); report compared with plain tree text + counts of what the real MkdirFromMarkdown then creates in the same file-system model. 'dry run rejects iff the real run rejects because of names' is decided at byte level by C07 (same five routes, every name byte symbolic). Outside: massive mode (C10).",
 			Assume: append([]string{parseContract, pathContract, fsModel, "fatih/color under NoColor; bufio.Writer as buffer + one Write at Flush"}, commonAssume...),
 		},
 		{
@@ -414,7 +414,7 @@ func allChecksRaw() []*Check {
 				{Name: "C17.long.full", Pkg: "gtree", Entry: "VerifC17Long", N: 1, Wasm: true, RealParse: true, RealScan: true, Expect: []string{"C17.acc.long/text", "C17.out.long/text", "C17.long.end"}},
 				{Name: "C17.lines.4", Pkg: "gtree", Entry: "VerifC17Lines", N: 4, Wasm: true, RealParse: true, RealScan: true, Expect: []string{"C17.lines.nil/text", "C17.lines.same/text", "C17.lines.same/json", "C17.lines.same/dryrun", "C17.lines.end"}},
 			},
-			Bounds: "documents of N rows (quick 4, thorough 5): item rows at any depth up to two levels below the previous row (level jumps, indented first row), at most one blank / no-bullet / empty-text row at any position; and well-formed forests of N rows (quick 4, thorough 6); options: text with 4 opaque branch strings, JSON record, dry-run report with 0..1 opaque extension; both variants compiled into one SSA program (the tinywasm file set regenerated from /repo's working tree on every run). Byte level (real path code of both variants, no path contracts): forests of 2 rows x names of 1..2 arbitrary ASCII bytes (quick), 3 rows x 1..2 bytes and 2 rows x 1..3 bytes (thorough), so '.', '..' and names containing '/' occur as root and as child; text, JSON, dry-run with and without the extension '.x'. Notation across blocks (real parser in both variants): two root blocks whose indented rows use 1..4 blanks or a tab per level each, list or # roots: same decision, same text. Line limit (real bufio.Scanner in both variants): a root row of 65535 bytes (fits), 65536 bytes (does not) or 131068 bytes, one arbitrary name byte, with or without a short second root: same decision, same text. Outside: YAML/TOML (absent from the tinywasm variant), cmd/gtree-wasm's JavaScript glue.",
+			Bounds: "documents of N rows (quick 4, thorough 5): item rows at any depth up to two levels below the previous row (level jumps, indented first row), at most one blank / no-bullet / empty-text row at any position; and well-formed forests of N rows (quick 4, thorough 6); options: text with 4 opaque branch strings, JSON record, dry-run report with 0..1 opaque extension; both variants compiled into one SSA program (the tinywasm file set regenerated from /repo's working tree on every run). Byte level (real path code of both variants, no path contracts): forests of 2 rows x names of 1..2 arbitrary ASCII bytes (quick), 3 rows x 1..2 bytes and 2 rows x 1..3 bytes (thorough), so '.', '..' and names containing '/' occur as root and as child; text, JSON, dry-run with and without the extension '.x'. Notation across blocks (real parser in both variants): two root blocks whose indented rows use 1..4 blanks or a tab per level each, list or # roots: same decision, same text. Line limit (real bufio.Scanner in both variants): a root row of 65535 bytes (fits), 65536 bytes (does not) or 131068 bytes, one arbitrary name byte, with or without a short second root: same decision, same text. Line ends (real line splitting of both variants): forests of 3 (quick) / 4 (thorough) rows, LF after every row in the default build against LF or CRLF per row, with or without the last terminator and an appended empty line, in the tinywasm build: text, JSON, dry-run identical. Every tree-level comparison also with a writer that refuses its first write (same decision). Outside: YAML/TOML (absent from the tinywasm variant), cmd/gtree-wasm's JavaScript glue.",
 			Assume: append([]string{parseContract, pathContract, encStub, "the tinywasm variant is type-checked and executed as package gtree/zz_verif_wasm with build tag verif standing in for tinywasm (file selection by the original constraints)"}, commonAssume...),
 		},
 	}
